@@ -167,6 +167,50 @@ class Composite(LexicalParent[Node], HasCreator, Node, ABC):
         for node in self:
             node.deactivate_strict_hints()
 
+    def _internal_cache_key(self):
+        """
+        What, beyond the composite's own input values, the outputs depend on: which
+        children there are, how they are wired, and the values of child inputs that are
+        not fed by a connection (recursively for composite children).
+        """
+        return (
+            self.child_labels,
+            tuple(self._child_data_connections),
+            frozenset(self._child_signal_connections),
+            self._starting_node_labels,
+            tuple(
+                (
+                    child.label,
+                    tuple(
+                        (label, channel.value)
+                        for label, channel in child.inputs.items()
+                        if not channel.connected
+                    ),
+                    (
+                        child._internal_cache_key()
+                        if isinstance(child, Composite)
+                        else None
+                    ),
+                )
+                for child in self
+            ),
+        )
+
+    def _write_cache(self) -> None:
+        super()._write_cache()
+        self._cached_internals = self._internal_cache_key()
+
+    @property
+    def cache_hit(self):
+        try:
+            return (
+                super().cache_hit
+                and getattr(self, "_cached_internals", None)
+                == self._internal_cache_key()
+            )
+        except Exception:
+            return False
+
     def _on_run(self):
         # Reset provenance and run status trackers
         self.provenance_by_execution = []
